@@ -788,6 +788,8 @@ impl Session {
             return Err(AnyTlsError::SessionClosed);
         }
 
+        #[cfg(anytls_rs_verif)]
+        verif_sched::point("open.checked").await;
         let stream_id = self
             .stream_id
             .fetch_add(1, std::sync::atomic::Ordering::SeqCst);
